@@ -74,6 +74,7 @@ type Case struct {
 	Target   URLRec `json:"target"`
 	TLS      string `json:"tls"`    // TLS settings on the repository entry: none | ca | cert | insecure
 	Order    string `json:"order"`  // single | privfirst | pubfirst (two dependencies from two repositories)
+	Conf     string `json:"conf"`   // fresh | readded (registered with pass-credentials first, then again as the case says)
 	Public   URLRec `json:"public"` // the second, public repository
 }
 
@@ -102,6 +103,7 @@ type Obs struct {
 	Redirect bool   `json:"redirect"`
 	TLS      string `json:"tls"`
 	Order    string `json:"order"`
+	Conf     string `json:"conf"`
 	Repo     URLRec `json:"repo"`
 	RepoURL  string `json:"repoURL"`
 	ChartURL string `json:"chartURL"`
@@ -412,7 +414,7 @@ func indexBytesFor(name, entryURL string) []byte {
 
 func (r *runner) one(cs Case, conc int, n *names) (o Obs) {
 	o = Obs{ID: cs.ID, Conc: conc, Path: cs.Path, Variant: cs.Variant, PassAll: cs.PassAll, Redirect: cs.Redirect, Repo: cs.Repo,
-		TLS: cs.TLS, Order: cs.Order}
+		TLS: cs.TLS, Order: cs.Order, Conf: cs.Conf}
 	repoURL := n.base(cs.Repo)
 	chartURL := n.base(cs.Chart) + "/" + chartFile
 	entry := chartURL
@@ -452,7 +454,18 @@ func (r *runner) one(cs Case, conc int, n *names) (o Obs) {
 			case "insecure":
 				ent.InsecureSkipTLSverify = true
 			}
-			rf.Add(ent)
+			if cs.Conf == "readded" { // the history of the entry: first with pass-credentials and a CA file, then as configured
+				first := *ent
+				first.PassCredentialsAll, first.CAFile, first.InsecureSkipTLSverify = true, r.pem, true
+				rf.Add(&first)
+				rf.WriteFile(repoCfg, 0o644)
+				if reread, err := repo.LoadFile(repoCfg); err == nil {
+					rf = reread
+				}
+				rf.Update(ent)
+			} else {
+				rf.Add(ent)
+			}
 			os.WriteFile(filepath.Join(cache, "r-index.yaml"), idx, 0o644)
 			if pubURL != "" {
 				rf.Add(&repo.Entry{Name: "pub", URL: pubURL})
